@@ -42,16 +42,25 @@ def replay(ctx, fam, behs, env=None):
     return replay_family(ctx, fam, behs, env=env, classify=classify)
 
 
-def scale(ctx, nquick, nthorough, ops=None):
-    """Scale.tla: the lifecycle requirements on 64 targets at once, a conditional stub with up to 120 conditions, a sequence of
-    up to 64 results; model-checked on a small instance, random histories replayed on the real library."""
+def scale(ctx, nquick, nthorough, ops=None, iface=False):
+    """Scale.tla: the lifecycle requirements on many objects at once - 64 functions in groups, a conditional stub with up to 120
+    conditions, a sequence of up to 64 results; instance ScaleI: 12 interface variables x 12 methods. Model-checked on a small
+    instance, random histories (8 simulation workers) replayed on the real library."""
     from lib.replay import replay_family
     q = ctx.quick()
-    ctx.tlc("MC_Scale", "MC_Scale.cfg", workers=8, timeout=900, constants={"MaxOps": 5 if q else 6}, tag="Scale: small instance, ResetExact / OwnedIffMocked")
-    bs = ctx.behaviours(ctx.tlc("MC_Scale", "Sim_Scale.cfg", workers=1, timeout=900, simulate="num=%d" % (nquick if q else nthorough), depth=14,
-                                tag="Scale: random histories over 64 targets in groups, stubs of up to 120 conditions / 64 results"))
+    n = -(-(nquick if q else nthorough) // 8)
+    if iface:
+        ctx.tlc("MC_Scale", "MC_ScaleI.cfg", workers=8, timeout=900, constants={"MaxOps": 6 if q else 7}, tag="ScaleI: small instance (2 objects x 2 targets), ResetExact / OwnedIffMocked")
+        bs = ctx.behaviours(ctx.tlc("MC_Scale", "Sim_ScaleI.cfg", workers=8, timeout=1500, simulate="num=%d" % n, depth=12,
+                                    tag="ScaleI: random histories over 12 interface variables x 12 methods in groups"))
+        fam = "scale-iface"
+    else:
+        ctx.tlc("MC_Scale", "MC_Scale.cfg", workers=8, timeout=900, constants={"MaxOps": 5 if q else 6}, tag="Scale: small instance, ResetExact / OwnedIffMocked")
+        bs = ctx.behaviours(ctx.tlc("MC_Scale", "Sim_Scale.cfg", workers=8, timeout=1500, simulate="num=%d" % n, depth=14,
+                                    tag="Scale: random histories over 64 targets in groups, stubs of up to 120 conditions / 64 results"))
+        fam = "scale"
     if ops:
         bs = [b for b in bs if any(s["op"] in ops for s in b)]
     if not bs:
         raise vlib.Broken("no Scale behaviours")
-    replay_family(ctx, "scale", bs, classify=classify)
+    replay_family(ctx, fam, bs, classify=classify)
